@@ -110,6 +110,65 @@ func c04RealRefs(v ssa.Value) []ssa.Instruction {
 	return out
 }
 
+// c04ReachableWithError: the blocks reachable from `from` (entered with ev != nil), not following the
+// "is nil" side of a test of a variable that holds ev on every way it can be reached from there (the
+// error was copied into a local first-error variable and control left the loop: `failure = err; break`
+// ... `if failure != nil`).
+func c04ReachableWithError(from *ssa.BasicBlock, ev ssa.Value) map[*ssa.BasicBlock]bool {
+	all := reachableFrom(from, nil)
+	holdsEv := func(v ssa.Value) bool {
+		ph, ok := v.(*ssa.Phi)
+		if !ok {
+			return v == ev
+		}
+		some := false
+		for i, pb := range ph.Block().Preds {
+			if !all[pb] {
+				continue
+			}
+			if ph.Edges[i] != ev {
+				return false
+			}
+			some = true
+		}
+		return some
+	}
+	seen := map[*ssa.BasicBlock]bool{}
+	var walk func(b *ssa.BasicBlock)
+	walk = func(b *ssa.BasicBlock) {
+		if seen[b] {
+			return
+		}
+		seen[b] = true
+		skip := -1
+		if n := len(b.Instrs); n > 0 {
+			if ifi, ok := b.Instrs[n-1].(*ssa.If); ok {
+				if bo, ok := ifi.Cond.(*ssa.BinOp); ok && (bo.Op == token.EQL || bo.Op == token.NEQ) {
+					var x ssa.Value
+					if isNilConst(bo.Y) {
+						x = bo.X
+					} else if isNilConst(bo.X) {
+						x = bo.Y
+					}
+					if x != nil && x != ev && holdsEv(x) && b != from {
+						skip = 0 // the `== nil` outcome cannot happen
+						if bo.Op == token.NEQ {
+							skip = 1
+						}
+					}
+				}
+			}
+		}
+		for i, s := range b.Succs {
+			if i != skip {
+				walk(s)
+			}
+		}
+	}
+	walk(from)
+	return seen
+}
+
 func c04ErrHonoured(p *Prog, fn *ssa.Function, call *ssa.Call, ev ssa.Value) (string, string) {
 	errIdx := c04ErrResult(fn)
 	name := c04CalleeName(call)
@@ -146,7 +205,7 @@ func c04ErrHonoured(p *Prog, fn *ssa.Function, call *ssa.Call, ev ssa.Value) (st
 					badMsg = "the error of " + name + " is tested but " + fn.Name() + " has no error result to report it through"
 					continue
 				}
-				for blk := range reachableFrom(nonNil, nil) {
+				for blk := range c04ReachableWithError(nonNil, ev) {
 					if len(blk.Instrs) == 0 {
 						continue
 					}
@@ -1971,6 +2030,7 @@ func c04FixtureRules(fp *Prog, fr *Report) {
 	if sink == nil {
 		undecided("fixture c04: sink bits not found")
 	}
+	c04ListLoops(fp, fr, "list-terms", fns, sink)
 	for _, fn := range fns {
 		var bpar *ssa.Parameter
 		for _, par := range fn.Params {
